@@ -36,6 +36,12 @@ def run(tier, replay=None):
     mx = likely.find_likely_fn(prog, 'maximize')
     m = likely.check_method(prog, rep, 'maximize', mx)
     locale_wrappers(prog, rep, m)
+    # the lookups key on "the language is und" (Language(None)) and on the integer forms of the stored text: every spelling of und must be stored as None and every
+    # subtag in its one canonical form (subtag validators, shared with C15); both method wrappers write the result back (the property speaks of maximizing the minimized form)
+    from . import validators, subtag_api
+    validators.run_all(common.program('K1'), rep, roles_wanted={'Language', 'Script', 'Region', 'Variant'})
+    subtag_api.language_empty(common.program('K1'), rep, validators.load_roles())
+    likely.check_method(prog, rep, 'minimize', likely.find_likely_fn(prog, 'minimize'))
     rep.floor('LanguageIdentifier::maximize bodies', len(m), 1)
     rep.floor('likely-subtags rows (all three components present)', nrows, 8219)
     rep.count('maximize decision paths / distinct lookups', '%d / %d' % (res['paths'], res['lookups']))
